@@ -9,6 +9,7 @@ non-accepted module is refused with an error naming the module and is not execut
 """
 import importlib
 import json
+import os
 import sys
 from pathlib import PurePosixPath
 
@@ -368,6 +369,51 @@ def run(ctx):
         if o1[0] != "ok" or o2[0] != "ok" or o1[1] == o2[1] or o2[2] != "h2":
             res.violations.append({"what": "accept_module('X_steps') followed by accept_module('X'): an edit of a function of X_steps does not change the signature / value "
                                            "of its caller: %s -> %s" % (o1, o2), "input": {"accepted_in_order": ["ROOT_steps", "ROOT"], "caller": main_o.replace(root, "ROOT")}, "kf": None})
+    # a package that registers itself (dds.accept_module(__name__) in its __init__): it is an accepted package from the moment it is
+    # imported - at the top of the script, or for the first time while the function that imports it in its body is analysed. Every
+    # run is a fresh process (a user running the script again) on one store; the function of the package is edited in between.
+    import subprocess
+    import tempfile
+    import shutil
+    SCRIPT = ("import sys, json\nsys.path.insert(0, %(repo)r)\nsys.path.insert(0, %(proj)r)\nimport dds\n%(top)s\n"
+              "dds.set_store('local', internal_dir=%(si)r, data_dir=%(sd)r)\n\n"
+              "def report():\n    import %(pk)s.model\n    return %(pk)s.model.score()\n\n"
+              "def report_from():\n    from %(pk)s import model\n    return model.score()\n\n"
+              "res = [dds.keep('/self/report', report), dds.keep('/self/report_from', report_from)]\n"
+              "from dds.introspect import _accepted_packages\n"
+              "print('RESULT ' + json.dumps({'res': res, 'accepted': %(pk)r in [str(p) for p in _accepted_packages]}))\n")
+    for si_, top in enumerate(["import %(pk)s", "", "import json"]):
+        proj = tempfile.mkdtemp(prefix="ddsverif_c14s_")
+        pk = "c14self%d" % si_
+        try:
+            os.makedirs(os.path.join(proj, pk))
+            with open(os.path.join(proj, pk, "__init__.py"), "w") as fh:
+                fh.write("import dds\n\ndds.accept_module(__name__)\n\nfrom . import model\n")
+            outs = []
+            for v in (1, 2, 1):
+                with open(os.path.join(proj, pk, "model.py"), "w") as fh:
+                    fh.write("def score():\n    return 'score-v%d'\n" % v)
+                shutil.rmtree(os.path.join(proj, pk, "__pycache__"), ignore_errors=True)
+                with open(os.path.join(proj, "main.py"), "w") as fh:
+                    fh.write(SCRIPT % {"repo": common.REPO, "proj": proj, "top": top % {"pk": pk}, "pk": pk,
+                                       "si": os.path.join(proj, "si"), "sd": os.path.join(proj, "sd")})
+                cp = subprocess.run([sys.executable, "-B", os.path.join(proj, "main.py")], capture_output=True, text=True, cwd=proj, timeout=300)
+                lines = [l for l in cp.stdout.splitlines() if l.startswith("RESULT ")]
+                outs.append(json.loads(lines[-1][7:]) if lines else {"error": cp.stderr.strip().splitlines()[-1][:300] if cp.stderr.strip() else "no output"})
+                res.evaluations += 1
+                res.count("self_registering_package_runs")
+                res.nontrivial("self-registering package %d v%d" % (si_, v))
+            want = [["score-v%d" % v] * 2 for v in (1, 2, 1)]
+            got = [o.get("res") for o in outs]
+            if got != want or not all(o.get("accepted") for o in outs):
+                res.violations.append({"what": "a package that accepts itself when imported (first import: %s): its function score() is edited v1, v2, v1 between three "
+                                               "runs of the script; the kept callers return %s (accepted at the end of the runs: %s)" % (
+                                                   "at the top of the script" if si_ == 0 else "in the body of the kept function, during its analysis", [o.get("res", o.get("error")) for o in outs],
+                                                   [o.get("accepted") for o in outs]),
+                                       "input": {"script": SCRIPT.replace("%(pk)s", pk), "top_import": top % {"pk": pk}, "package_init": "import dds; dds.accept_module(__name__); from . import model"},
+                                       "kf": None})
+        finally:
+            shutil.rmtree(proj, ignore_errors=True)
     for p in list(_accepted_packages):
         if p not in before:
             _accepted_packages.discard(p)
